@@ -40,8 +40,9 @@ func c19HasPriv(ps ExecutionPrivileges, db string, want Privilege) bool {
 }
 
 func c19Check(kind int, tier int) {
-	g := &vfGen{tier: tier, budget: 1 + tier}
 	name := vfStmtGens[kind].name
+	b, sb := vfBudget(name, tier)
+	g := &vfGen{tier: tier, budget: b, sub: sb}
 	vfStmtGens[kind].gen(g)
 	text := g.text()
 	vfNote(text)
